@@ -62,9 +62,24 @@ def run(tier, prop='C03'):
     for th, n, enc, k in canon_cfgs(tier):
         r.add(Ob('realcode-canonical-T%d-%s-len%d' % (th, 'enc' if enc else 'dec', n), 'h_pipe.c', [u], defines=['THREADS=%d' % th, 'DLEN=%d' % n, 'ENC=%d' % enc, 'K=%d' % k, 'SCHED_CANON'] + PIPE_DEFS,
                  unwind=k + 40, timeout=T, mem_gb=24, envs=PIPE_ENVS, replay='none', cbmc_extra=FS, note='one schedule (run until blocked), all input contents symbolic'))
+    # (3a) C04 only: a pipeline that runs AFTER another one in the same process image terminates as well (the counters the termination
+    #      argument rests on - bufferctrl::live_num, buffergroup::instance/turn - are back to their initial values; obligations shared with C15)
+    if prop == 'C04':
+        for (t1, n1, t2, n2) in ((2, 40, 1, 33), (1, 20, 2, 16)) if tier == 'quick' else ((3, 40, 1, 16), (3, 40, 2, 16), (2, 40, 1, 33), (1, 20, 2, 16), (2, 50, 3, 40), (3, 70, 1, 0)):
+            k = 200 + 4 * (n1 + n2)
+            r.add(Ob('second-pipeline-terminates-T%d-len%d-then-T%d-len%d' % (t1, n1, t2, n2), 'h_pipe.c', [u], defines=['THREADS=%d' % t1, 'DLEN=%d' % n1, 'ENC=1', 'K=%d' % k, 'SCHED_CANON', 'SECOND_T=%d' % t2, 'SECOND_LEN=%d' % n2] + PIPE_DEFS,
+                     unwind=k + 40, timeout=900, mem_gb=24, envs=PIPE_ENVS, replay='none', cbmc_extra=FS, note='two pipelines in one process image, real code, canonical schedule'))
+    # (3b) C03 only: stream objects are private to their worker (an object shared by two workers is raced on by their runcry calls)
+    if prop == 'C03':
+        ug, ureal = U_kern_gate(), U_kern('kern')
+        for th in ((2, 3) if tier == 'quick' else (2, 3, 4, 8, 16)):
+            for enc in (1, 0):
+                r.add(Ob('streams-private-T%d-%s' % (th, 'enc' if enc else 'dec'), 'h_verify.c', [ug], defines=['H_STREAMS', 'FLEN=%d' % (20 * th + 16), 'THREADS=%d' % th, 'ENCDIR=%d' % enc, 'SREF_MSGMAX=16'],
+                         unwind=max(400, 20 * th + 60), timeout=300, envs=KERN_ENVS, replay_units=[ureal], replay_envs=NATIVE_FILE_ENVS, cbmc_extra=FS,
+                         note='real prepare_AES, any cipher mode 0..4 (symbolic), any key/IV: pairwise distinct stream objects'))
     r.run_all(jobs=10)
     # (4) confirmation on the real step functions for anything that failed in (1) or (2); also a standing differential validation of the model
-    bad = [o for o in r.obs if o.status == 'CEX']
+    bad = [o for o in r.obs if o.status == 'CEX' and not o.name.startswith('streams-private')]
     nseeds = 300 if tier == 'quick' else 3000
     searches = []
     try:
@@ -103,7 +118,7 @@ def run(tier, prop='C03'):
         return 'REPRODUCED (real thread bodies as step functions under the canonical schedule, native run: %s)' % (mm.group(1) if mm else 'exit %d' % p.returncode)
     for o in bad:
         o.replay = 'native'
-        if o.name.startswith('realcode-canonical') and not hits:
+        if (o.name.startswith('realcode-canonical') or o.name.startswith('second-pipeline')) and not hits:
             o.replay_result = replay_canonical(o)
             if o.replay_result.startswith('REPRODUCED'):
                 rp = os.path.join(VERIF, 'replay'); os.makedirs(rp, exist_ok=True)
@@ -139,6 +154,8 @@ def replay(rp):
     if rp.get('kind') == 'canonical':
         print('re-run ./check %s quick: canonical-schedule counterexamples are deterministic (obligation %s, defines %s)' % (rp['property'], rp['obligation'], rp['defines']))
         return 1
+    if 'config' not in rp:
+        return generic_replay(rp, {'kern_gate': U_kern_gate, 'kern': U_kern})
     s = rp['config']
     hit = native_schedule_search(r, s['threads'], s['full_chunks'], s['last_blocks'], s['chunk_blocks'], max(s['failing'][0], 1) if s.get('failing') else 300)
     print('schedule search:', hit)
